@@ -339,6 +339,14 @@ def install(reg):
         if any(isinstance(e, int) and e == -1 for e in new):
             if len(new) == 1:
                 return _ravel(itp, v)
+            if v.ndim == 1 and len(new) == 2 and isinstance(new[0], int) and new[0] == -1 and not (isinstance(new[1], int) and new[1] <= 0):
+                # vector -> (-1, m): m must divide the length; row r holds elements r*m .. r*m + m - 1 (C order).
+                # (a copy is returned: a write through the result would not reach the vector - not needed so far)
+                m = new[1]
+                n = v.shape[0]
+                cx.require(f"safe.reshape#{cx.ordinal('safe.reshape')}", T.eq(T.mod(n, m), 0), "safe", f"reshape(-1, {m}): the length is a multiple of {m}")
+                g = v.getter()
+                return SArr.fresh((T.floordiv(n, m), m), lambda idx: g((T.add(T.mul(idx[0], m), idx[1]),)), v.dtype, v.nan_getter() and (lambda idx, ng=v.nan_getter(): ng((T.add(T.mul(idx[0], m), idx[1]),))))
             raise Unsupported("reshape with -1")
         old_nonunit = [(ax, e) for ax, e in enumerate(v.shape) if not (isinstance(e, int) and e == 1)]
         new_nonunit = [(ax, e) for ax, e in enumerate(new) if not (isinstance(e, int) and e == 1)]
